@@ -236,6 +236,19 @@ def arbitrary_cases(draw, tier):
     return {"A": A, "kind": kind}
 
 
+@st.composite
+def long_lu_cases(draw, tier):
+    """Tall / wide with one long dimension, or a square matrix just past the blocking sizes 32 / 64."""
+    shape = draw(st.sampled_from(["tall", "wide", "square"]))
+    if shape == "square":
+        m = n = draw(st.sampled_from([33, 64, 65] if tier == "quick" else [33, 64, 65, 100, 129]))
+    else:
+        Lg, sh = draw(gen.long_dim(cap=257 if tier == "quick" else 520)), draw(st.integers(1, 3))
+        m, n = (Lg, sh) if shape == "tall" else (sh, Lg)
+    A, pat = draw(gen.long_qarray(m, n, draw(st.sampled_from(["generic", "int", "sparse"]))))
+    return {"A": A, "kind": "long:" + shape}
+
+
 def check_arbitrary(case):
     out = Out()
     out.label(case["kind"])
@@ -255,6 +268,8 @@ PROPERTY = Property(
                budget={"quick": 400, "thorough": 6000}),
         Clause("arbitrary", check_arbitrary, strategy=arbitrary_cases, budget={"quick": 600, "thorough": 8000},
                fuzz={"runs": 4000, "procs": 4}),
+        Clause("arbitrary_long_dimension", check_arbitrary, strategy=long_lu_cases, budget={"quick": 32, "thorough": 320},
+               shrink=False),
     ],
     assumptions=[
         "numpy-quaternion dtype conversions (as_quat_array/as_float_array) are trusted",
